@@ -473,7 +473,12 @@ class AirTouchSocket(Generic[comms.Hdr]):
                 if self._loop.time() < entry.expiry:
                     try:
                         await self._write(entry.header, entry.message)
-                    except (ValueError, NotImplementedError, struct.error):
+                    except (
+                        ValueError,
+                        NotImplementedError,
+                        OverflowError,
+                        struct.error,
+                    ):
                         # This indicates an error encoding this message.
                         # We shouldn't retry this message, but the connection
                         # doesn't need to be reset and the remaining messages
